@@ -12,7 +12,7 @@ RULE = ("random live roots (merged-usr symlinks bin/sbin/lib/lib64 -> usr/*, bas
         "outside area only reachable through symlinks) with an installed old package (entries modified, missing, "
         "turned into symlinks since recording; symlinks to files/dirs/outside/dangling, fifos, nested empty and "
         "non-empty listed dirs) and, for replace, a new image sharing entries with the old one by the same or by an "
-        "aliasing spelling (lib/x vs usr/lib/x). MergeEngine.uninstall / MergeEngine.replace (merge, unmerge, "
+        "aliasing spelling (lib/x vs usr/lib/x; the shared object is a file, a symlink or a fifo). MergeEngine.uninstall / MergeEngine.replace (merge, unmerge, "
         "BaseSystemUnmergeProtection only) run hook by hook with offset '/' inside a chroot and with a nested offset; "
         "the root snapshot after the run must equal the model's expected snapshot. A scenario is non-trivial when the "
         "old set contains a symlink, a listed dir that must survive (non-empty, or an otherwise empty base dir), or shares a physical path "
@@ -30,7 +30,8 @@ SHARDS = {"quick": 4, "thorough": 16}
 TIMEOUT = {"quick": 240, "thorough": 1800}
 MIN_EVALS = 2500
 REQUIRED_COUNTERS = ("runs:uninstall:chroot", "runs:replace:chroot", "runs:replace:nested", "disp:remove",
-                     "base_dir_protection_decisive", "replace_aliased_paths",
+                     "base_dir_protection_decisive", "replace_aliased_paths", "replace_aliased:file",
+                     "replace_aliased:non-regular",
                      "disp:rmdir-if-empty", "disp:protected", "disp:kept-for-new-package", "listed_symlinks_judged")
 
 K_ALIAS = "replace-remove-set-by-recorded-path"
@@ -128,7 +129,12 @@ def judge(ctx, plan, tag="run"):
     if mode == "replace":
         shared = [p for p in keep if p in listed_phys]
         ctx.count("replace_shared_physical_paths", len(shared))
-        ctx.count("replace_aliased_paths", len([p for p in shared if not set(listed_phys[p]) & set(new_phys[p])]))
+        aliased = [p for p in shared if not set(listed_phys[p]) & set(new_phys[p])]
+        ctx.count("replace_aliased_paths", len(aliased))
+        for p in aliased:
+            # by the type the new package installs there (regular files and other objects take different code paths)
+            t = {plan["new"][r]["t"] for r in new_phys[p]}
+            ctx.count("replace_aliased:" + ("dir" if "d" in t else "file" if "f" in t else "non-regular"))
     for d in ("either", "unresolvable"):
         n = sum(1 for _, dd in disp.values() if dd == d)
         for _ in range(n):
